@@ -53,6 +53,9 @@ FOREIGN_HOME_MODULES = set()     # top-level module names of the package (filled
 FOREIGN_FUNCS = {}    # module-level functions of top-level package modules, likewise (callers import them by name)
 FOREIGN = {}          # method name -> FunctionDef: methods of package classes (defined once in the whole package, not known to the rule tables,
                       # touching only their own object) that callers in other classes / modules may have inlined
+STATICS = {}          # (class name, method name) -> FunctionDef: static methods, unknown to the rule tables, of classes defined once (called as `K.m(..)`; filled by build_foreign)
+PURE_PROPS = {}       # property name -> (name of self, returned expression): read-only properties unknown to the rule tables whose name is defined once in the package (filled by build_foreign)
+RECORDS = {}          # class name -> (ClassDef, home module, {method: (FunctionDef, needs)}, fields): small record classes unknown to the rule tables (filled by build_foreign)
 SIGS = {}      # simple name -> parameter list, for classes (constructor, without self) and module-level functions defined once in the package
 
 
@@ -100,17 +103,34 @@ def _foreign_body_ok(m, t, is_method):
         if isinstance(n, ast.Yield) and not _simple_generator(m):
             return None
     needs = set()
+    consts = {}
     binds = _module_bindings(t)
     for n in ast.walk(m):
         if isinstance(n, ast.Name) and isinstance(n.ctx, ast.Load) and n.id not in local and not hasattr(_b, n.id):
             b_ = binds.get(n.id)
             if b_ is not None and b_[0] in ("def", "import", "from"):
                 needs.add((n.id, b_))      # fine where the caller's module binds that name to the same thing (or not at all)
+            elif b_ is not None and b_[0] == "assign" and _literal_module_const(t, n.id) is not None:
+                consts[n.id] = _literal_module_const(t, n.id)       # a module-level literal bound once: the inlined copy carries the value
             else:
                 return None          # reads a module-level variable of its own module
     if _size(m.body) > 14:
         return None
+    m._sa_consts = consts
     return needs
+
+
+def _literal_module_const(t, name):
+    """the value expression of `NAME = <arithmetic over literals>` when that is the only binding of NAME in module t; else None"""
+    stores = [n for n in ast.walk(t) if isinstance(n, ast.Name) and n.id == name and isinstance(n.ctx, (ast.Store, ast.Del))]
+    if len(stores) != 1 or any(isinstance(n, (ast.Global, ast.Nonlocal)) and name in n.names for n in ast.walk(t)):
+        return None
+    for st in t.body:
+        if isinstance(st, ast.Assign) and len(st.targets) == 1 and st.targets[0] is stores[0]:
+            v = st.value
+            if all(isinstance(x, (ast.Constant, ast.BinOp, ast.UnaryOp, ast.operator, ast.unaryop)) for x in ast.walk(v)):
+                return v
+    return None
 
 
 def build_foreign(trees, known):
@@ -152,7 +172,158 @@ def build_foreign(trees, known):
                     continue
                 m._sa_home = (modname, frozenset(needs))
                 out[m.name] = m
+    _build_records(trees, known)
+    _build_pure_props(trees, known)
+    STATICS.clear()
+    ccount = {}
+    for t in trees.values():
+        for n in ast.walk(t):
+            if isinstance(n, ast.ClassDef):
+                ccount[n.name] = ccount.get(n.name, 0) + 1
+    for modname, t in trees.items():
+        for st in t.body:
+            if isinstance(st, ast.ClassDef) and ccount.get(st.name) == 1:
+                names = [m.name for m in st.body if isinstance(m, (ast.FunctionDef, ast.AsyncFunctionDef))]
+                for m in st.body:
+                    if isinstance(m, ast.FunctionDef) and [_dec(d) for d in m.decorator_list] == ["staticmethod"] and names.count(m.name) == 1 \
+                            and "%s.%s.%s" % (modname, st.name, m.name) not in known and not m.name.startswith("__"):
+                        needs = _foreign_body_ok(m, t, False)
+                        if needs is not None and not any(isinstance(n, ast.Attribute) and n.attr == m.name for n in ast.walk(m)):
+                            m._sa_home = (modname, frozenset(needs))
+                            STATICS[(st.name, m.name)] = m
     return {k: v for k, v in out.items() if seen.get(k) == 1}
+
+
+def _build_pure_props(trees, known):
+    """`x.p` for a property p that only returns an expression of self's attributes is that expression with x for self.  The attribute
+    name must mean that property wherever it is read: defined once in the whole package (no other def, class attribute, assignment or
+    deletion of the name), decorated with `@property` alone, not a function the rule tables know."""
+    PURE_PROPS.clear()
+    defs, assigned, cand = {}, set(), {}
+    shadow = set()
+    for modname, t in trees.items():
+        shadow |= set(_module_bindings(t))
+        for n in ast.walk(t):
+            if isinstance(n, (ast.FunctionDef, ast.AsyncFunctionDef, ast.ClassDef)):
+                defs[n.name] = defs.get(n.name, 0) + 1
+            elif isinstance(n, ast.Attribute) and isinstance(n.ctx, (ast.Store, ast.Del)):
+                assigned.add(n.attr)
+            elif isinstance(n, ast.Constant) and isinstance(n.value, str) and n.value.isidentifier():
+                assigned.add(n.value)           # setattr(x, "name", ..) and friends
+            elif isinstance(n, ast.ClassDef):
+                pass
+        for c in [x for x in ast.walk(t) if isinstance(x, ast.ClassDef)]:
+            for st in c.body:
+                if isinstance(st, (ast.Assign, ast.AnnAssign, ast.AugAssign)):
+                    for x in ast.walk(st):
+                        if isinstance(x, ast.Name) and isinstance(x.ctx, ast.Store):
+                            assigned.add(x.id)
+        for c in t.body:
+            if not isinstance(c, ast.ClassDef):
+                continue
+            for m in c.body:
+                if not isinstance(m, ast.FunctionDef) or [_dec(d) for d in m.decorator_list] != ["property"]:
+                    continue
+                if "%s.%s.%s" % (modname, c.name, m.name) in known or len(m.args.args) != 1 or m.args.vararg or m.args.kwarg or m.args.kwonlyargs:
+                    continue
+                body = [b for b in m.body if not (isinstance(b, ast.Expr) and isinstance(b.value, ast.Constant))]
+                if len(body) != 1 or not isinstance(body[0], ast.Return) or body[0].value is None:
+                    continue
+                selfn, e, ok = m.args.args[0].arg, body[0].value, True
+                bases = set(id(n.value) for n in ast.walk(e) if isinstance(n, ast.Attribute) and isinstance(n.value, ast.Name) and n.value.id == selfn)
+                funcs = set(id(n.func) for n in ast.walk(e) if isinstance(n, ast.Call) and isinstance(n.func, ast.Name) and n.func.id in IMMUTABLE_BUILTINS
+                            and not n.keywords and not any(isinstance(a, ast.Starred) for a in n.args))
+                for n in ast.walk(e):
+                    if isinstance(n, ast.Name):
+                        if not ((n.id == selfn and id(n) in bases) or id(n) in funcs):
+                            ok = False
+                    elif isinstance(n, ast.Call):
+                        if id(n.func) not in funcs:
+                            ok = False
+                    elif isinstance(n, ast.Subscript):
+                        if not isinstance(n.slice, ast.Constant):
+                            ok = False
+                    elif not isinstance(n, (ast.Constant, ast.Tuple, ast.Attribute, ast.BinOp, ast.UnaryOp, ast.Compare, ast.BoolOp, ast.IfExp, ast.expr_context, ast.operator, ast.unaryop, ast.cmpop, ast.boolop)):
+                        ok = False
+                if ok and _size([body[0]]) <= 6:
+                    cand[m.name] = (selfn, e)
+    for name, v in cand.items():
+        if defs.get(name) == 1 and name not in assigned and not name.startswith("__") and name not in _CONTAINER_METHODS:
+            if not any(isinstance(n, ast.Name) and n.id in shadow and n.id != v[0] for n in ast.walk(v[1])):
+                PURE_PROPS[name] = v
+
+
+_RECORD_DUNDERS = {"__init__", "__repr__", "__str__"}
+
+
+def _build_records(trees, known):
+    """Record classes: a class of the package (defined once, not known to the rule tables, no bases but `object`, no decorators, no class-level
+    state, no attribute hooks) whose `__init__` does nothing but bind fields: `self.a = <expression of the parameters>`.  A local object of such
+    a class that never leaves the function is a bundle of local variables (scalar replacement, SROA in the Inliner)."""
+    RECORDS.clear()
+    count = {}
+    for t in trees.values():
+        for st in ast.walk(t):
+            if isinstance(st, ast.ClassDef):
+                count[st.name] = count.get(st.name, 0) + 1
+    for modname, t in trees.items():
+        for st in t.body:
+            if not isinstance(st, ast.ClassDef) or count.get(st.name) != 1 or st.decorator_list or st.keywords:
+                continue
+            if any(not (isinstance(b, ast.Name) and b.id == "object") for b in st.bases):
+                continue
+            if any(q.startswith("%s.%s." % (modname, st.name)) for q in known):
+                continue
+            methods, ok = {}, True
+            for m in st.body:
+                if isinstance(m, ast.Expr) and isinstance(m.value, ast.Constant):
+                    continue
+                if isinstance(m, ast.Pass):
+                    continue
+                if not isinstance(m, ast.FunctionDef) or m.decorator_list or m.name in methods:
+                    ok = False
+                    break
+                if m.name.startswith("__") and m.name.endswith("__") and m.name not in _RECORD_DUNDERS:
+                    ok = False
+                    break
+                methods[m.name] = m
+            init = methods.get("__init__")
+            if not ok or init is None or not init.args.args:
+                continue
+            a = init.args
+            if a.vararg or a.kwarg or a.kwonlyargs or a.posonlyargs or any(not isinstance(d, ast.Constant) for d in a.defaults):
+                continue
+            selfn = a.args[0].arg
+            fields = []
+            body = [b for b in init.body if not (isinstance(b, ast.Expr) and isinstance(b.value, ast.Constant)) and not isinstance(b, ast.Pass)]
+            for b in body:
+                if isinstance(b, ast.Assign) and len(b.targets) == 1 and isinstance(b.targets[0], ast.Attribute) and isinstance(b.targets[0].value, ast.Name) \
+                        and b.targets[0].value.id == selfn and not any(isinstance(n, (ast.Await, ast.Yield, ast.YieldFrom, ast.Lambda, ast.NamedExpr)) for n in ast.walk(b.value)):
+                    # `self` may appear in the value only as `self.<field already bound>`
+                    bad = False
+                    attr_bases = set(id(n.value) for n in ast.walk(b.value) if isinstance(n, ast.Attribute) and isinstance(n.value, ast.Name) and n.value.id == selfn and n.attr in fields)
+                    for n in ast.walk(b.value):
+                        if isinstance(n, ast.Name) and n.id == selfn and id(n) not in attr_bases:
+                            bad = True
+                    if bad:
+                        ok = False
+                        break
+                    fields.append(b.targets[0].attr)
+                else:
+                    ok = False
+                    break
+            if not ok or not fields:
+                continue
+            if any(f in methods for f in fields):
+                continue
+            needs_of = {}
+            for name, m in methods.items():
+                needs = _foreign_body_ok(m, t, True)
+                if needs is not None and not isinstance(m, ast.AsyncFunctionDef):
+                    needs_of[name] = (m, frozenset(needs))
+            if "__init__" not in needs_of:
+                continue
+            RECORDS[st.name] = (st, modname, needs_of, tuple(fields))
 
 
 def drop_dead_foreign(trees, logs=()):
@@ -632,6 +803,12 @@ def _fold_test(t):
                 same = False if isinstance(other, ast.Constant) or (isinstance(other, ast.Name) and other.id in _CUR_CLEAN_NAMES) else None
             if same is not None:
                 return ast.copy_location(ast.Constant(value=same if isinstance(t.ops[0], ast.Is) else not same), t)
+    if isinstance(t, ast.Compare) and len(t.ops) == 1 and isinstance(t.ops[0], (ast.Is, ast.IsNot)):
+        a, b = t.left, t.comparators[0]
+        for x, y in ((a, b), (b, a)):
+            if isinstance(x, ast.Constant) and x.value is None and _dump(y) in NONNULL_CONSTS:
+                # `constants.LIST is None`: a package constant bound once to a literal other than None
+                return ast.copy_location(ast.Constant(value=isinstance(t.ops[0], ast.IsNot)), t)
     if isinstance(t, (ast.Tuple, ast.List)) and not any(isinstance(x, ast.Starred) for x in t.elts) and not any(_has_call(x) for x in t.elts):
         return ast.copy_location(ast.Constant(value=bool(t.elts)), t)      # a display is true iff it has elements
     if isinstance(t, ast.Compare) and len(t.ops) == 1 and isinstance(t.left, ast.Constant) and isinstance(t.comparators[0], ast.Constant):
@@ -1106,7 +1283,7 @@ class FuncCanon(object):
         changed = False
         for blk in _all_blocks(self.fn):
             top = blk is self.fn.body
-            if self.star(blk) or self.callsel(blk) or self.tuplepush(blk) or self.sumloop(blk) or self.listcomp(blk) or self.unroll(blk) or self.lockwith(blk) or self.flagloop(blk) or self.thread(blk) or self.deadstore(blk) or self.kw(blk) or self.split(blk) or self.retsplit(blk) or self.unindex(blk) or self.yieldsplit(blk) or self.forelse(blk) or self.dowhile(blk) or self.withsink(blk) or self.testsplit(blk) or self.rot(blk) or self.brk(blk, top) or self.wtop(blk) or self.ifs(blk) or self.sink(blk) or self.unpack(blk) or self.fwd(blk):
+            if self.prop(blk) or self.lencomp(blk) or self.star(blk) or self.callsel(blk) or self.tuplepush(blk) or self.sumloop(blk) or self.listcomp(blk) or self.unroll(blk) or self.listbuild(blk) or self.lockwith(blk) or self.flagloop(blk) or self.ifflag(blk) or self.thread(blk) or self.deadstore(blk) or self.kw(blk) or self.split(blk) or self.retsplit(blk) or self.unindex(blk) or self.yieldsplit(blk) or self.forelse(blk) or self.dowhile(blk) or self.withsink(blk) or self.testsplit(blk) or self.rot(blk) or self.brk(blk, top) or self.wtop(blk) or self.ifs(blk) or self.sink(blk) or self.unpack(blk) or self.fwd(blk):
                 return True
         return changed
 
@@ -1402,6 +1579,73 @@ class FuncCanon(object):
             return True
         return False
 
+    # -- LISTBUILD -------------------------------------------------------------------------------------------------
+    def listbuild(self, blk):
+        """`v = [a] ; .. ; v.append(b) ; .. ; v.append(c)`   ->   `_lb0 = a ; .. ; _lb1 = b ; .. ; v = [_lb0, _lb1, c]`
+        when v is a local bound once, nothing but these appends (statements of this very block) touches it before the last of them, and
+        every other use comes later in the block: nobody can see the list while it grows (each element is still computed where it was)."""
+        for i, st in enumerate(blk):
+            if not (isinstance(st, ast.Assign) and len(st.targets) == 1 and isinstance(st.targets[0], ast.Name) and isinstance(st.value, ast.List)
+                    and not any(isinstance(x, ast.Starred) for x in st.value.elts)):
+                continue
+            v = st.targets[0].id
+            if len(self.stores.get(v, ())) != 1 or v in self.params or v in self.captured:
+                continue
+
+            def is_append(s_):
+                return isinstance(s_, ast.Expr) and isinstance(s_.value, ast.Call) and isinstance(s_.value.func, ast.Attribute) and s_.value.func.attr == "append" \
+                    and isinstance(s_.value.func.value, ast.Name) and s_.value.func.value.id == v and len(s_.value.args) == 1 and not s_.value.keywords \
+                    and not isinstance(s_.value.args[0], ast.Starred)
+            apps = [k for k in range(i + 1, len(blk)) if is_append(blk[k])]
+            if not apps:
+                continue
+            last = apps[-1]
+            allowed = set(id(blk[k].value.func.value) for k in apps)
+            later = set(id(n) for s_ in blk[last + 1:] for n in ast.walk(s_))
+            loads = self.loads.get(v, [])
+            if any(id(n) not in allowed and id(n) not in later for n in loads):
+                continue
+            if any(isinstance(n, ast.Name) and n.id == v for k in apps for n in ast.walk(blk[k].value.args[0])) or any(isinstance(n, ast.Name) and n.id == v for n in ast.walk(st.value)):
+                continue
+            base = "_lb%d" % (1 + sum(1 for n in self.stores if n.startswith("_lb")))
+            while any(n.startswith(base + "_") for n in list(self.stores) + list(self.loads)):
+                base += "x"
+            elts, cnt = [], 0
+
+            def temp(e, at):
+                nonlocal cnt
+                if isinstance(e, ast.Constant):
+                    return None, e
+                nm = "%s_%d" % (base, cnt)
+                cnt += 1
+                self.fresh.add(nm)
+                a = ast.copy_location(ast.Assign(targets=[ast.Name(id=nm, ctx=ast.Store())], value=e), at)
+                ast.fix_missing_locations(a)
+                return a, ast.copy_location(ast.Name(id=nm, ctx=ast.Load()), at)
+            head = []
+            for e in st.value.elts:
+                a, ref = temp(e, st)
+                if a is not None:
+                    head.append(a)
+                elts.append(ref)
+            repl = {}
+            for k in apps[:-1]:
+                a, ref = temp(blk[k].value.args[0], blk[k])
+                repl[k] = [a] if a is not None else []
+                elts.append(ref)
+            elts.append(blk[last].value.args[0])
+            final = ast.copy_location(ast.Assign(targets=[ast.Name(id=v, ctx=ast.Store())], value=ast.List(elts=elts, ctx=ast.Load())), blk[last])
+            ast.fix_missing_locations(final)
+            out = blk[:i] + head
+            for k in range(i + 1, last):
+                out.extend(repl[k] if k in repl else [blk[k]])
+            out.append(final)
+            out.extend(blk[last + 1:])
+            blk[:] = out
+            self.bump("LISTBUILD")
+            return True
+        return False
+
     # -- UNROLL ----------------------------------------------------------------------------------------------------
     def unroll(self, blk):
         """`for x in (a, b): B` -> `x = a; B; x = b; B`   (a literal sequence of at most four elements, B without
@@ -1605,6 +1849,55 @@ class FuncCanon(object):
         return False
 
     # -- THREAD ----------------------------------------------------------------------------------------------------
+    def ifflag(self, blk):
+        """`if c: A; v = K1` / `else: B; v = K2` ; `if T(v): S`   ->   `if c: A; if T(K1): S` / `else: B; if T(K2): S`
+        when v (a local nobody else reads) is set to a literal at the very end of every arm: the test that follows is evaluated at the
+        same point of either path, with v known (jump threading through a flag a helper returned)."""
+        for i in range(len(blk) - 1):
+            st, nxt = blk[i], blk[i + 1]
+            if not (isinstance(st, ast.If) and st.orelse and isinstance(nxt, ast.If)):
+                continue
+
+            def tail_flag(arm):
+                while arm and isinstance(arm[-1], ast.If) and arm[-1].orelse:
+                    a = tail_flag(arm[-1].body)
+                    return a if a is not None and a == tail_flag(arm[-1].orelse) else None
+                if arm and isinstance(arm[-1], ast.Assign) and len(arm[-1].targets) == 1 and isinstance(arm[-1].targets[0], ast.Name) and isinstance(arm[-1].value, ast.Constant):
+                    return arm[-1].targets[0].id
+                return None
+            v = tail_flag(st.body)
+            if v is None or tail_flag(st.orelse) != v or v in self.params or v in self.captured:
+                continue
+            loads = self.loads.get(v, [])
+            in_test = set(id(n) for n in ast.walk(nxt.test))
+            if not loads or any(id(n) not in in_test for n in loads):
+                continue
+            if any(isinstance(n, (ast.NamedExpr, ast.Await, ast.Yield, ast.YieldFrom, ast.Lambda)) for n in ast.walk(nxt.test)):
+                continue
+            if _size(nxt.body) + _size(nxt.orelse) > 8:
+                continue
+
+            def push(arm):
+                last = arm[-1]
+                if isinstance(last, ast.If):
+                    push(last.body)
+                    push(last.orelse)
+                    return
+                k = last.value
+
+                class R(ast.NodeTransformer):
+                    def visit_Name(self, n):
+                        return ast.copy_location(ast.Constant(value=k.value), n) if n.id == v and isinstance(n.ctx, ast.Load) else n
+                new = copy.deepcopy(nxt)
+                new.test = R().visit(new.test)
+                arm.append(new)
+            push(st.body)
+            push(st.orelse)
+            del blk[i + 1]
+            self.bump("IFFLAG")
+            return True
+        return False
+
     def thread(self, blk):
         """Jump threading through a test on a value that every exit of the preceding loop has just set to a literal:
         `loop: .. v = (a, b); break .. [else: v = None]` ; `if v is not None: B(leaves the function)`
@@ -1736,6 +2029,54 @@ class FuncCanon(object):
                     return True
         return False
 
+    # -- PROP ------------------------------------------------------------------------------------------------------
+    def prop(self, blk):
+        """`x.p` -> the expression a pure property p returns, with x for self (x a plain name or attribute chain)"""
+        if not PURE_PROPS:
+            return False
+        for st in blk:
+            for n in self._own_exprs(st):
+                for fld, val in ast.iter_fields(n):
+                    vals = val if isinstance(val, list) else [val]
+                    for k, c in enumerate(vals):
+                        if isinstance(c, ast.Attribute) and isinstance(c.ctx, ast.Load) and c.attr in PURE_PROPS and _is_chain(c.value) and self.fn.name != c.attr:
+                            selfn, e = PURE_PROPS[c.attr]
+                            recv = c.value
+                            if any(isinstance(x, ast.Name) and x.id in IMMUTABLE_BUILTINS and (x.id in self.stores or x.id in self.params) for x in ast.walk(e)):
+                                continue
+
+                            class R(ast.NodeTransformer):
+                                def visit_Name(self, x):
+                                    return copy.deepcopy(recv) if x.id == selfn else x
+                            new = ast.copy_location(R().visit(copy.deepcopy(e)), c)
+                            ast.fix_missing_locations(new)
+                            if isinstance(val, list):
+                                val[k] = new
+                            else:
+                                setattr(n, fld, new)
+                            self.bump("PROP")
+                            return True
+        return False
+
+    # -- LENCOMP ---------------------------------------------------------------------------------------------------
+    def lencomp(self, blk):
+        """`len([E for .. if C])` -> `sum((1 for .. if C))` when E is call-free (it is computed only to be counted)"""
+        if self.stores.get("len") or self.stores.get("sum") or "len" in self.params or "sum" in self.params:
+            return False
+        for st in blk:
+            for n in self._own_exprs(st):
+                if isinstance(n, ast.Call) and isinstance(n.func, ast.Name) and n.func.id == "len" and len(n.args) == 1 and not n.keywords:
+                    a = n.args[0]
+                    if isinstance(a, ast.Call) and isinstance(a.func, ast.Name) and a.func.id in ("list", "tuple") and len(a.args) == 1 and not a.keywords and isinstance(a.args[0], ast.GeneratorExp):
+                        a = a.args[0]
+                    if isinstance(a, (ast.ListComp, ast.GeneratorExp)) and (isinstance(a, ast.ListComp) or a is not n.args[0]) and not _has_call(a.elt) \
+                            and not any(g.is_async for g in a.generators) and not any(isinstance(x, (ast.Subscript, ast.Attribute)) for x in ast.walk(a.elt)):
+                        n.func.id = "sum"
+                        n.args[0] = ast.copy_location(ast.GeneratorExp(elt=ast.copy_location(ast.Constant(value=1), a), generators=a.generators), a)
+                        self.bump("LENCOMP")
+                        return True
+        return False
+
     # -- STAR ------------------------------------------------------------------------------------------------------
     def star(self, blk):
         """f(*(a, b)) -> f(a, b)"""
@@ -1841,6 +2182,14 @@ class FuncCanon(object):
                 v = st.value
                 r1 = ast.copy_location(ast.Return(value=v.body), st)
                 r2 = ast.copy_location(ast.Return(value=v.orelse), st)
+                blk[i:i + 1] = [ast.copy_location(ast.If(test=v.test, body=[r1], orelse=[]), st), r2]
+                self.bump("RETSPLIT")
+                return True
+            if isinstance(st, ast.Raise) and isinstance(st.exc, ast.IfExp) and (st.cause is None or not _has_call(st.cause)):
+                # `raise (a if c else b)` -> `if c: raise a` ; `raise b`   (one arm is evaluated, then raised, either way)
+                v = st.exc
+                r1 = ast.copy_location(ast.Raise(exc=v.body, cause=copy.deepcopy(st.cause)), st)
+                r2 = ast.copy_location(ast.Raise(exc=v.orelse, cause=st.cause), st)
                 blk[i:i + 1] = [ast.copy_location(ast.If(test=v.test, body=[r1], orelse=[]), st), r2]
                 self.bump("RETSPLIT")
                 return True
@@ -2636,14 +2985,80 @@ class Inliner(object):
             if isinstance(n, ast.Call) and ((isinstance(n.func, ast.Attribute) and n.func.attr == fn.name) or (isinstance(n.func, ast.Name) and n.func.id == fn.name)):
                 return False
         for d in a.defaults:
-            if not isinstance(d, ast.Constant) and not (isinstance(d, ast.Attribute) and isinstance(d.value, ast.Name)) and not (isinstance(d, ast.Name) and d.id in SENTINELS.get(self.modname, ())):
+            if not isinstance(d, ast.Constant) and not (isinstance(d, ast.Attribute) and isinstance(d.value, ast.Name)) and not (isinstance(d, ast.Name) and d.id in SENTINELS.get(self.modname, ())) \
+                    and not (isinstance(d, ast.Name) and self._stable_def_name(d.id)):
                 return False
         return _size(fn.body) <= 40
 
+    def _stable_def_name(self, name):
+        """`name` is bound in this module by one def / class statement and by nothing else (the same object whenever it is looked up)"""
+        n = 0
+        for x in ast.walk(self.tree):
+            if isinstance(x, (ast.FunctionDef, ast.AsyncFunctionDef, ast.ClassDef)) and x.name == name:
+                n += 1 if any(x is st for st in self.tree.body) else 2
+            elif isinstance(x, ast.Name) and x.id == name and isinstance(x.ctx, (ast.Store, ast.Del)):
+                return False
+            elif isinstance(x, (ast.Global, ast.Nonlocal)) and name in x.names:
+                return False
+            elif isinstance(x, ast.alias) and (x.asname or x.name).split(".")[0] == name:
+                return False
+        return n == 1
+
+    def _module_level(self):
+        """Calls of small module-level helpers made while the module is being imported (`_NAME = _register(..)`): the module body is
+        treated like a function body; the helper's locals become fresh module-level names, plain copies among them are forwarded."""
+        cands = {k: v for k, v in self.candidates().items() if k[0] is None and not isinstance(v, ast.AsyncFunctionDef) and not any(isinstance(n, ast.Yield) for n in ast.walk(v))}
+        if not cands:
+            return
+        pseudo = ast.FunctionDef(name="<module>", args=ast.arguments(posonlyargs=[], args=[], kwonlyargs=[], kw_defaults=[], defaults=[]), body=self.tree.body, decorator_list=[])
+        done = False
+        for _ in range(12):
+            if not self._inline_one(None, pseudo, cands):
+                break
+            done = True
+        if not done:
+            return
+        fresh = set(_fresh_registry(pseudo))
+        body = self.tree.body
+        for _ in range(40):
+            for i, st in enumerate(body):
+                if not (isinstance(st, ast.Assign) and len(st.targets) == 1 and isinstance(st.targets[0], ast.Name) and st.targets[0].id in fresh):
+                    continue
+                v, val = st.targets[0].id, st.value
+                if not (isinstance(val, ast.Constant) or (isinstance(val, ast.Name) and (self._stable_def_name(val.id) or val.id in fresh))):
+                    continue
+                if sum(1 for n in ast.walk(self.tree) if isinstance(n, ast.Name) and n.id == v and isinstance(n.ctx, (ast.Store, ast.Del))) != 1:
+                    continue
+                if isinstance(val, ast.Name) and val.id in fresh and sum(1 for n in ast.walk(self.tree) if isinstance(n, ast.Name) and n.id == val.id and isinstance(n.ctx, (ast.Store, ast.Del))) != 1:
+                    continue
+                # every read is in a later top-level statement of the module body (not inside a def, which would run later)
+                later = set(id(n) for st2 in body[i + 1:] if not isinstance(st2, (ast.FunctionDef, ast.AsyncFunctionDef, ast.ClassDef)) for n in ast.walk(st2))
+                loads = [n for n in ast.walk(self.tree) if isinstance(n, ast.Name) and n.id == v and isinstance(n.ctx, ast.Load)]
+                if any(id(n) not in later for n in loads):
+                    continue
+
+                class R(ast.NodeTransformer):
+                    def visit_Name(self, n):
+                        return ast.copy_location(copy.deepcopy(val), n) if n.id == v and isinstance(n.ctx, ast.Load) else n
+                for k in range(i + 1, len(body)):
+                    body[k] = R().visit(body[k])
+                del body[i]
+                break
+            else:
+                break
+
     def run(self):
+        self._run_functions()
+        try:
+            self._module_level()
+        except Bail as e:
+            self.log.append("module-level inlining: %s" % e)
+        self._drop_unreferenced()
+
+    def _run_functions(self):
         for _round in range(4):
             cands = self.candidates()
-            if not cands and not FOREIGN and not FOREIGN_FUNCS:
+            if not cands and not FOREIGN and not FOREIGN_FUNCS and not RECORDS and not STATICS:
                 return
             any_done = False
             for cls, fn in self._functions():
@@ -2651,7 +3066,9 @@ class Inliner(object):
                     any_done = True
             if not any_done:
                 break
-        self._drop_unreferenced()
+        for cls, fn in self._functions():
+            if self._scalarise(cls, fn):
+                self.stats["INLINE"] = self.stats.get("INLINE", 0) + 1
 
     def _functions(self):
         for st in self.tree.body:
@@ -2694,6 +3111,25 @@ class Inliner(object):
                 if self._inlinable_def(h) and (home == self.modname or self._bindings_available(home, needs)):
                     return h, True
             return None
+        if isinstance(f, ast.Attribute) and isinstance(f.value, ast.Name) and (f.value.id, f.attr) in STATICS and (cls, f.attr) not in cands:
+            # `K.m(..)`: a static method looked up on a package class by name
+            h = STATICS[(f.value.id, f.attr)]
+            home, needs = h._sa_home
+            k = f.value.id
+            here = _module_bindings(self.tree).get(k)
+            bound = (here == ("def", k) and home == self.modname) or (here == ("from", home.split(".")[-1], k) and home != self.modname)
+            if bound and k not in _params(caller) and not any(isinstance(n, ast.Name) and n.id == k and isinstance(n.ctx, (ast.Store, ast.Del)) for n, _ in _fn_nodes(caller)) \
+                    and self._inlinable_def(h) and (home == self.modname or self._bindings_available(home, needs)):
+                return h, False
+            return None
+        if isinstance(f, ast.Attribute) and isinstance(f.value, ast.Name):
+            rec = self._record_of(caller, f.value.id)
+            if rec is not None:
+                # a method of a record class, called on a local object constructed in this function (its exact class is known)
+                hm = rec[2].get(f.attr)
+                if hm is not None and f.attr != "__init__" and self._inlinable_def(hm[0]) and (rec[1] == self.modname or self._bindings_available(rec[1], hm[1])):
+                    return hm[0], True
+                return None
         if isinstance(f, ast.Attribute) and isinstance(f.value, ast.Name) and f.attr in FOREIGN and (cls, f.attr) not in cands:
             # a method of another package class, called on a local object that this function never rebinds
             r = f.value.id
@@ -2715,6 +3151,96 @@ class Inliner(object):
             if cps and not caller_static and f.value.id == cps[0] and not any(isinstance(n, ast.Name) and n.id == cps[0] and isinstance(n.ctx, ast.Store) for n, _ in _fn_nodes(caller)):
                 return h, not static
         return None
+
+    def _record_of(self, caller, name):
+        """-> RECORDS entry when local `name` of `caller` is bound exactly once, by `name = K(...)` with K a record class"""
+        if not RECORDS or name in _params(caller) or name in _names_captured(caller):
+            return None
+        stores = [n for n, _ in _fn_nodes(caller) if isinstance(n, ast.Name) and n.id == name and isinstance(n.ctx, (ast.Store, ast.Del))]
+        if len(stores) != 1:
+            return None
+        for blk in _all_blocks(caller):
+            for st in blk:
+                if isinstance(st, ast.Assign) and len(st.targets) == 1 and st.targets[0] is stores[0] and isinstance(st.value, ast.Call) and isinstance(st.value.func, ast.Name):
+                    k = st.value.func.id
+                    rec = RECORDS.get(k)
+                    if rec is None or k in _params(caller) or any(isinstance(n, ast.Name) and n.id == k and isinstance(n.ctx, (ast.Store, ast.Del)) for n, _ in _fn_nodes(caller)):
+                        return None
+                    here = _module_bindings(self.tree).get(k)
+                    if here == ("def", k) and rec[1] == self.modname:
+                        return rec
+                    if here == ("from", rec[1].split(".")[-1], k) and rec[1] != self.modname:
+                        return rec
+                    return None
+        return None
+
+    def _scalarise(self, cls, caller):
+        """SROA: a local record object that never leaves the function (every occurrence is `v.<field>`, all method calls were inlined) is
+        replaced by one local variable per field; the construction becomes the body of `__init__`."""
+        done = False
+        if not RECORDS:
+            return False
+        names = sorted(set(n.id for n, _ in _fn_nodes(caller) if isinstance(n, ast.Name) and isinstance(n.ctx, ast.Store)))
+        for v in names:
+            rec = self._record_of(caller, v)
+            if rec is None:
+                continue
+            kdef, home, methods, fields = rec
+            parent = {}
+            for n in ast.walk(caller):
+                for c in ast.iter_child_nodes(n):
+                    parent[id(c)] = n
+            occ = [n for n in ast.walk(caller) if isinstance(n, ast.Name) and n.id == v]
+            ctor = None
+            ok = True
+            for n in occ:
+                p_ = parent.get(id(n))
+                if isinstance(n.ctx, ast.Store):
+                    if isinstance(p_, ast.Assign) and len(p_.targets) == 1 and p_.targets[0] is n:
+                        ctor = p_
+                        continue
+                    ok = False
+                    break
+                if not (isinstance(p_, ast.Attribute) and p_.value is n and p_.attr in fields and isinstance(p_.ctx, (ast.Load, ast.Store))):
+                    ok = False
+                    break
+            if not ok or ctor is None:
+                continue
+            new_names = {f: "_r_%s_%s" % (v, f) for f in fields}
+            used = set(n.id for n in ast.walk(caller) if isinstance(n, ast.Name)) | set(_params(caller))
+            if any(x in used for x in new_names.values()):
+                continue
+            init, needs = methods["__init__"]
+            if not (home == self.modname or self._bindings_available(home, needs)):
+                continue
+            call = ctor.value
+            fake = ast.copy_location(ast.Call(func=ast.Attribute(value=ast.Name(id=v, ctx=ast.Load()), attr="__init__", ctx=ast.Load()), args=call.args, keywords=call.keywords), call)
+            try:
+                pre, body, tag, fresh = self._prepare(caller, fake, init, True, False)
+            except Bail as e:
+                self.log.append("SROA skipped %s in %s: %s" % (v, caller.name, e))
+                continue
+            blk = next((b for b in _all_blocks(caller) if any(x is ctor for x in b)), None)
+            if blk is None:
+                continue
+            i = next(k for k, x in enumerate(blk) if x is ctor)
+            new = pre + body
+            for x in new:
+                ast.fix_missing_locations(x)
+            blk[i:i + 1] = new
+
+            class R(ast.NodeTransformer):
+                def visit_Attribute(self, n):
+                    self.generic_visit(n)
+                    if isinstance(n.value, ast.Name) and n.value.id == v and n.attr in new_names:
+                        return ast.copy_location(ast.Name(id=new_names[n.attr], ctx=n.ctx), n)
+                    return n
+            R().visit(caller)
+            _fresh_registry(caller).update(fresh)
+            self.stats["SROA"] = self.stats.get("SROA", 0) + 1
+            self.log.append("SROA: %s of %s in %s" % (v, kdef.name, caller.name))
+            done = True
+        return done
 
     def _bindings_available(self, home, needs):
         """every module-level name the foreign body reads means the same thing here - names this module does not bind at all are imported
@@ -2863,6 +3389,14 @@ class Inliner(object):
                                         return True
                                 except Bail as e:
                                     self.log.append("INLINE skipped %s in %s: %s" % (m[0].name, caller.name, e))
+                                    if not st.orelse and not _is_const_true(st.test) and not getattr(st, "_sa_unwtop", False):
+                                        # `while T(h()): B`  ->  `while True: if not T(h()): break ; B`: the helper's statements then have a place to go
+                                        brk = ast.copy_location(ast.If(test=negate(st.test), body=[ast.copy_location(ast.Break(), st)], orelse=[]), st)
+                                        st.test = ast.copy_location(ast.Constant(value=True), st)
+                                        st.body.insert(0, brk)
+                                        st._sa_unwtop = True
+                                        ast.fix_missing_locations(st)
+                                        return True
         return False
 
     # -- binding ---------------------------------------------------------------------------------------------------
@@ -2907,6 +3441,12 @@ class Inliner(object):
         body = copy.deepcopy(h.body)
         if body and isinstance(body[0], ast.Expr) and isinstance(body[0].value, ast.Constant) and isinstance(body[0].value.value, str):
             body = body[1:]
+        hc = getattr(h, "_sa_consts", None)
+        if hc:
+            class K(ast.NodeTransformer):
+                def visit_Name(self, n):
+                    return ast.copy_location(copy.deepcopy(hc[n.id]), n) if isinstance(n.ctx, ast.Load) and n.id in hc else n
+            body = [K().visit(st) for st in body]
         hp = [x.arg for x in h.args.args] + ([h.args.vararg.arg] if h.args.vararg is not None else [])
         local = set(hp)
         for st in body:
@@ -3219,6 +3759,25 @@ def _tailify(stmts, ret, at):
         if isinstance(st, (ast.With, ast.AsyncWith)) and _contains_return(st) and i == len(stmts) - 1:
             # the with-statement ends the helper: a return at the tail of its body leaves the block normally first
             st.body = _tailify(st.body, ret, at) or [ast.copy_location(ast.Pass(), st)]
+            out.append(st)
+            return out
+        if isinstance(st, ast.Try) and _contains_return(st):
+            # returns at the tail of the try body / of handlers / of the else-block: the statements after the try run exactly when the body
+            # ends normally (every handler leaves), i.e. they are its else-block
+            rest = stmts[i + 1:]
+            body_ret = any(_contains_return(x) for x in st.body)
+            if any(_contains_return(x) for x in st.finalbody) or (st.finalbody and rest):
+                raise Bail("return and finally")
+            if body_ret and (st.orelse or rest):
+                raise Bail("return inside a try body that is followed by more statements")
+            if rest and not all(always_exits(h.body) for h in st.handlers):
+                raise Bail("a handler falls through to statements with a return")
+            if body_ret:
+                st.body = _tailify(st.body, ret, at) or [ast.copy_location(ast.Pass(), st)]
+            else:
+                st.orelse = _tailify(st.orelse + rest, ret, at)
+            for h in st.handlers:
+                h.body = _tailify(h.body, ret, at) or [ast.copy_location(ast.Pass(), h)]
             out.append(st)
             return out
         if _contains_return(st):
@@ -3604,6 +4163,17 @@ if __name__ == "__main__":
     from .rename import canonical_names
     for r in canonical_names(trees):
         print("# renamed:", r, file=sys.stderr)
+    NONNULL_CONSTS.clear()
+    if "constants" in trees:
+        _once = {}
+        for _st in trees["constants"].body:
+            if isinstance(_st, ast.Assign) and len(_st.targets) == 1 and isinstance(_st.targets[0], ast.Name):
+                _once.setdefault(_st.targets[0].id, []).append(_st.value)
+        for _n, _vals in _once.items():
+            if len(_vals) == 1 and isinstance(_vals[0], (ast.Constant, ast.Dict, ast.List, ast.Tuple, ast.Set)) and not (isinstance(_vals[0], ast.Constant) and _vals[0].value is None):
+                NONNULL_CONSTS.add(_dump(ast.Attribute(value=ast.Name(id="constants", ctx=ast.Load()), attr=_n, ctx=ast.Load())))
+    FOREIGN_HOME_MODULES.clear()
+    FOREIGN_HOME_MODULES.update(n for n in trees if "." not in n)
     SIGS.clear()
     SIGS.update(build_signatures(trees.values()))
     CLASS_METHODS.clear()
